@@ -128,6 +128,14 @@ func buildAlphabet() []letter {
 			add(b)
 		}
 	}
+	// the threshold must follow a power change: after upd(B,3) validator B alone holds 3 of 5
+	// (not more than 2/3), after upd(B,5) it holds 5 of 7 (more than 2/3)
+	add(eff("upd(B,3)", cUpd, "B", 3, false))
+	for _, b := range []letter{eff("upd(A,0)", cUpd, "A", 0, false), eff("rm(C)", cRm, "C", 0, false)} {
+		b.Signers = []string{"B"}
+		b.Name = b.Name + "/onlyB"
+		add(b)
+	}
 	bs := eff("add(K,0)/badself", cAdd, "K", 0, false)
 	bs.SelfSign = "bad"
 	add(bs)
